@@ -21,6 +21,8 @@ type Tgt struct {
 	ReadDep []string `json:"readDep"` // the dependencies whose generated files the body reads
 	Srcs    []string `json:"srcs"`    // root-relative paths: files, directories, generated files of other targets
 	Glob    string   `json:"glob,omitempty"` // additionally: sources=glob([Glob]) evaluated in the package directory (`**/*.txt`, `*.txt`, `d0/**`)
+	// GlobEx: exclude=[GlobEx] of that glob: a pattern that matches a directory NAME (`d0*`) but none of the files below it
+	GlobEx string `json:"globEx,omitempty"`
 	Gens    []string `json:"gens"`    // root-relative paths
 	Always  bool     `json:"always"`
 	Default bool     `json:"default"`
@@ -230,6 +232,10 @@ func (p *Proj) globMatches(t *Tgt) []string {
 		return nil
 	}
 	re := globRE(t.Glob)
+	var ex *regexp.Regexp
+	if t.GlobEx != "" {
+		ex = globRE(t.GlobEx)
+	}
 	prefix := ""
 	if t.Pkg != "" {
 		prefix = t.Pkg + "/"
@@ -239,7 +245,7 @@ func (p *Proj) globMatches(t *Tgt) []string {
 		if !strings.HasPrefix(f, prefix) {
 			continue
 		}
-		if re.MatchString(f[len(prefix):]) {
+		if re.MatchString(f[len(prefix):]) && (ex == nil || !ex.MatchString(f[len(prefix):])) {
 			out = append(out, f)
 		}
 	}
@@ -443,7 +449,11 @@ func (p *Proj) renderBuild(pkg string) string {
 		deps = append(deps, t.Deps...)
 		srcs := quoteList(t.Srcs, "/")
 		if t.Glob != "" {
-			srcs += fmt.Sprintf(" + glob([%q])", t.Glob)
+			if t.GlobEx != "" {
+				srcs += fmt.Sprintf(" + glob([%q], exclude=[%q])", t.Glob, t.GlobEx)
+			} else {
+				srcs += fmt.Sprintf(" + glob([%q])", t.Glob)
+			}
 		}
 		nameExpr := fmt.Sprintf("%q", t.Name)
 		if t.FlagNamed && p.Flag != "" && t.Pkg == "" && strings.HasSuffix(t.Name, p.Flag) {
